@@ -603,7 +603,9 @@ def _make_const1storder_virtual_point_evaluator(
     # calculate necessary constants
     const, factor, index = _get_virtual_point_data_1storder(bc)
 
-    if bc.homogeneous:
+    if bc.homogeneous or bc.grid.num_axes == 1:
+        # the constants do not depend on the position along the boundary, which is also
+        # the case for all grids with a single axis, where boundaries have no extent
 
         @jit(backend=backend)
         def virtual_point(arr: NumericArray, idx: tuple[int, ...], args=None) -> float:
